@@ -47,7 +47,7 @@ type GenOpt struct {
 }
 
 func DefaultOpt() GenOpt {
-	return GenOpt{MaxEntries: 24, MaxDepth: 4, MaxFanout: 6, Names: Names, Types: "fdlpcb", Xattrs: true, SecXattrs: true, Links: true, Owners: []uint32{0, 1234, 65534}, Special: true, LongNames: true, ReadOnly: true, Deep: true}
+	return GenOpt{MaxEntries: 24, MaxDepth: 4, MaxFanout: 6, Names: Names, Types: "fdlpcb", Xattrs: true, SecXattrs: true, Links: true, Owners: []uint32{0, 1234, 65534, 3000000000}, Special: true, LongNames: true, ReadOnly: true, Deep: true}
 }
 
 func (o GenOpt) has(t byte) bool { return strings.IndexByte(o.Types, t) >= 0 }
